@@ -90,17 +90,26 @@ class SliceInner:
     width: int
 
 
+def _parent_width(parent: Any) -> int:
+    """Width of a `Slice`'s parent. References get theirs from their referents."""
+    from .elab.helpers.width import width
+
+    return width(parent)
+
+
 def _slice_inner(slize: Slice) -> SliceInner:
-    """Calculate the inner resolved fields for `slize`"""
+    """Calculate the inner resolved fields for `slize`,
+    following the semantics of indexing a Python sequence of `width` bits."""
 
     parent = slize.parent
     index = slize.index
+    width = _parent_width(parent)
 
     if isinstance(index, int):
-        if index >= parent.width:
+        if index >= width or index < -width:
             raise ValueError(f"Out-of-bounds index {index} into {parent}")
         if index < 0:
-            index += parent.width
+            index += width
         return SliceInner(top=index + 1, bot=index, step=1, width=1)
 
     if isinstance(index, slice):
@@ -113,42 +122,34 @@ def _slice_inner(slize: Slice) -> SliceInner:
         step = 1 if step is None else step
         if step == 0:
             raise ValueError(f"slice step cannot be zero")
-        elif step < 0:
-            # Here `top` gets a "+1" since `start` is *inclusive*, while `bot` gets "+1" as `stop` is *exclusive*.
-            top = (
-                parent.width
-                if start is None
-                else start + 1
-                if start >= 0
-                else parent.width + start + 1
-            )
-            bot = (
-                0
-                if stop is None
-                else stop + 1
-                if stop >= 0
-                else parent.width + stop + 1
-            )
-            # Align bot with the step
-            bot += (top - bot) % abs(step)
+        for bound in (start, stop):
+            if bound is not None and (bound > width or bound < -width):
+                raise ValueError(f"Out-of-bounds slice {index} into {parent}")
+
+        # Normalize to the first selected index and the number of selected indices
+        if step > 0:
+            first = 0 if start is None else start if start >= 0 else width + start
+            limit = width if stop is None else stop if stop >= 0 else width + stop
+            count = (limit - first + step - 1) // step
         else:
-            # Here `start` and `stop` match `top` and `bot`'s inclusive/exclusivity.
-            # No need to add any offsets.
-            top = (
-                parent.width
-                if stop is None
-                else stop
-                if stop >= 0
-                else parent.width + stop
+            first = (
+                width - 1
+                if start is None
+                else start
+                if start >= 0
+                else width + start
             )
-            bot = 0 if start is None else start if start >= 0 else parent.width + start
-            # Align top with the step
-            top -= (top - bot) % step
+            first = min(first, width - 1)
+            limit = -1 if stop is None else stop if stop >= 0 else width + stop
+            count = (first - limit - step - 1) // (-step)
+        if count < 1:
+            raise ValueError(f"Empty slice {index} into {parent}")
 
-        width = (top - bot) // step
-
-        # Create and return our Slice. More checks are done in its constructor.
-        return SliceInner(top=top, bot=bot, step=step, width=width)
+        # `top` is exclusive, `bot` inclusive; both name selected bits (`top - 1` and `bot`)
+        last = first + (count - 1) * step
+        if step > 0:
+            return SliceInner(top=last + 1, bot=first, step=step, width=count)
+        return SliceInner(top=first + 1, bot=last, step=step, width=count)
 
     # Shouldn't be reachable, but blow up if we (somehow) get here.
     raise TypeError("Internal Error: Slice index should be an int or (python) slice")
